@@ -171,6 +171,13 @@ Definition leverage_score_dist (U : mat) (sv : list F) (nr nc : nat) (eps : F) :
   let k := num_rank sv nr nc eps in
   if Nat.eqb k 0 then Err else Ok (leverage_k U nr k).
 
+(* lower-precision input: the scores are cast to float64 and renormalised (lev_score_dist /= tl.sum(lev_score_dist)) *)
+Definition leverage_score_dist_any (renorm : bool) (U : mat) (sv : list F) (nr nc : nat) (eps : F) : res (list F) :=
+  match leverage_score_dist U sv nr nc eps with
+  | Ok l => Ok (if renorm then (let t := fsum Op l in map (fun x => div x t) l) else l)
+  | Err => Err
+  end.
+
 (* ---------- metrics/regression.py (tensors of Base/Tensor.v, optional axis) ---------- *)
 Definition tget (t : tensor F) (idx : list nat) : F := get zero t idx.
 Definition tzip (f : F -> F -> F) (a b : tensor F) : tensor F :=
